@@ -1,6 +1,6 @@
 (** C06 — property theorems only.  Each is closed by [exact] of a lemma in Proofs*.v and followed by
     [Print Assumptions]. *)
-From V Require Import Base.Util Gen.C06_tables_gen C06.Model C06.Spec C06.Proofs C06.ProofsMap C06.ProofsWriter C06.ProofsCli.
+From V Require Import Base.Util Gen.C06_tables_gen C06.Model C06.Spec C06.Proofs C06.ProofsMap C06.ProofsWriter C06.ProofsCli C06.Corr C06.ProofsCorr.
 
 Theorem C06_alphabet_decodes :
   forall i, (i < 64)%N -> b64_val (b64_char i) = Some i.
@@ -144,4 +144,14 @@ Theorem C06_orig_column_units_refuted :
   exists tok, In tok (token_starts astral_line) /\ t_line tok = 0%N /\ t_colc tok = 11%N /\ t_col16 tok = 12%N.
 Proof. exact orig_column_units_refuted_lemma. Qed.
 Print Assumptions C06_orig_column_units_refuted.
+
+Theorem C06_model_holds_vlq :
+  forall n t, vlq_encode n = Some t -> holds (CVlq n t) = true.
+Proof. exact holds_vlq_lemma. Qed.
+Print Assumptions C06_model_holds_vlq.
+
+Theorem C06_model_holds_map :
+  forall es m, add_entries m0 es = Some m -> holds (CMap es (Some (mbuf m))) = true.
+Proof. exact holds_map_lemma. Qed.
+Print Assumptions C06_model_holds_map.
 
